@@ -2860,3 +2860,268 @@ fn everything_the_router_hands_to_a_link_is_encodable_by_both_protocols() {
     }
     report(name, "C20", "publisher QoS 0/1/2 x 3 kinds of MQTT 5 publish properties x retain x granted QoS 0/1/2, with a late subscriber (retained replay), an unsolicited ack (router DISCONNECT) and a ping; every notification taken from an outgoing buffer is written by V4::write and V5::write", cases, fail);
 }
+
+// ---------------------------------------------------------------------------------------------
+// C01 / C08 / C09 together: pseudo-random histories against a reference model (seeded, reproducible).
+// One publisher, a PERSISTENT subscriber (filters a QoS 1, c/+ QoS 1, d QoS 0) and a CLEAN subscriber (filters a QoS 0,
+// b QoS 1).  Steps: publish bursts (1..6, sometimes up to 250), read, acknowledge a prefix, link failure + reconnect,
+// unsubscribe / subscribe again.  The model knows, per subscriber and topic, which message numbers are due:
+//   * per topic the numbers arrive in increasing order without gaps from the subscription's start (C01);
+//   * an acknowledged message is never sent again; after a resume the unacknowledged QoS 1 ones come again, nothing
+//     published while away is missing (C08); a clean reconnect starts with nothing;
+//   * never more than 100 unacknowledged QoS 1 forwards, ids non-zero and unique among them (C09);
+//   * at the end, with everything read and acknowledged and the broker idle, nothing due is missing (C01).
+// ---------------------------------------------------------------------------------------------
+struct XorShift(u64);
+impl XorShift {
+    fn next(&mut self) -> u64 {
+        self.0 ^= self.0 << 13;
+        self.0 ^= self.0 >> 7;
+        self.0 ^= self.0 << 17;
+        self.0
+    }
+    fn below(&mut self, n: u64) -> u64 {
+        self.next() % n
+    }
+}
+
+struct ModelSub {
+    name: &'static str,
+    clean: bool,
+    filters: Vec<(&'static str, u8)>,
+    client: Client,
+    /// filter -> subscribed now
+    active: std::collections::HashMap<&'static str, bool>,
+    /// topic -> next number that is due (None: not subscribed / nothing due)
+    due: std::collections::HashMap<&'static str, u64>,
+    /// unacknowledged QoS 1 forwards in arrival order: (pkid, topic, number)
+    unacked: VecDeque<(u16, String, u64)>,
+    /// (topic, number) acknowledged
+    acked: std::collections::HashSet<(String, u64)>,
+    /// topic -> highest number delivered so far + 1, per connection epoch start handled through `due`
+    log: Vec<String>,
+    /// topics on which the next delivery may jump ahead (something was accepted while the filter was not subscribed)
+    gap_ok: std::collections::HashMap<&'static str, u32>,
+}
+
+impl ModelSub {
+    fn clean_gap_allowed(&mut self, t: &'static str) -> bool {
+        // one jump ahead is allowed per period without subscription (or per dead link, for QoS 0)
+        match self.gap_ok.get_mut(t) {
+            Some(n) if *n > 0 => { *n -= 1; true }
+            _ => false,
+        }
+    }
+}
+
+fn model_topics() -> [&'static str; 5] {
+    ["a", "b", "c/1", "c/2", "d"]
+}
+
+fn filter_of(topic: &str, filters: &[(&'static str, u8)]) -> Option<(&'static str, u8)> {
+    filters.iter().copied().find(|(f, _)| ref_matches(topic, f))
+}
+
+// @native props=C01,C08,C09 tier=quick fn=Router (random histories against a delivery model)
+#[test]
+fn random_histories_agree_with_the_delivery_model() {
+    let name = "rumqttd::Router#random_histories_agree_with_the_delivery_model";
+    let seeds = env_usize("VERIF_FUZZ_SEEDS", 120) as u64;
+    let base = env_usize("VERIF_SEED", 1) as u64;
+    let mut cases = 0u64;
+    let mut fail: Option<String> = None;
+    'outer: for seed in 0..seeds {
+        cases += 1;
+        let mut rng = XorShift((base.wrapping_mul(1_000_003).wrapping_add(seed)).wrapping_mul(0x9E37_79B9_7F4A_7C15) | 1);
+        let mut r = new_router();
+        let p = connect(&mut r, "p", true).unwrap();
+        let mut subs: Vec<ModelSub> = vec![];
+        for (name, clean, filters) in [("s1", false, vec![("a", 1u8), ("c/+", 1), ("d", 0)]), ("s2", true, vec![("a", 0u8), ("b", 1)])] {
+            let client = connect(&mut r, name, clean).unwrap();
+            let fs: Vec<(&str, u8)> = filters.clone();
+            send(&mut r, &client, vec![subscribe(1, &fs)]);
+            let _ = drain(&mut r, &client);
+            let mut active = std::collections::HashMap::new();
+            for (f, _) in filters.iter() {
+                active.insert(*f, true);
+            }
+            subs.push(ModelSub { name, clean, filters, client, active, due: Default::default(), unacked: Default::default(), acked: Default::default(), log: vec![], gap_ok: Default::default() });
+        }
+        let mut published: std::collections::HashMap<&'static str, u64> = Default::default();
+        for t in model_topics() {
+            published.insert(t, 0);
+            for s in subs.iter_mut() {
+                if filter_of(t, &s.filters).is_some() {
+                    s.due.insert(t, 0);
+                }
+            }
+        }
+        let mut trace: Vec<String> = vec![];
+        let steps = 60 + rng.below(60);
+        // afterwards: both subscribers read and acknowledge everything, round after round, until nothing arrives any more
+        let total = steps + 4 * 60;
+        for step in 0..total {
+            let finishing = step >= steps;
+            let op = if finishing { [1u64, 2][((step - steps) % 2) as usize] } else { rng.below(12) };
+            let who = if finishing { (((step - steps) / 2) % 2) as usize } else { rng.below(2) as usize };
+            match op {
+                // publish a burst
+                0 | 3 | 4 | 5 | 6 => {
+                    let n = if rng.below(8) == 0 { 1 + rng.below(250) } else { 1 + rng.below(6) };
+                    let mut ps = vec![];
+                    for _ in 0..n {
+                        let t = model_topics()[rng.below(5) as usize];
+                        let k = published.get_mut(t).unwrap();
+                        ps.push(publish(t, 0, 0, &format!("{}#{}", t, k), false));
+                        *k += 1;
+                    }
+                    trace.push(format!("pub x{}", n));
+                    for chunk in ps.chunks(60) {
+                        send(&mut r, &p, chunk.to_vec());
+                    }
+                }
+                // read what the broker handed over
+                1 | 7 | 8 => {
+                    let s = &mut subs[who];
+                    let batch = drain(&mut r, &s.client);
+                    trace.push(format!("{} reads {}", s.name, batch.len()));
+                    for n in batch {
+                        if let RNotification::Forward(Forward { publish, .. }) = n {
+                            let topic = String::from_utf8_lossy(&publish.topic).to_string();
+                            let payload = String::from_utf8_lossy(&publish.payload).to_string();
+                            let num: u64 = payload.split('#').nth(1).and_then(|x| x.parse().ok()).unwrap_or(u64::MAX);
+                            if std::env::var("VERIF_FUZZ_DEBUG").is_ok() { eprintln!("seed {} step {} {} got {} (due {:?}, gap_ok {:?})", seed, step, s.name, payload, s.due.get(topic.as_str()), s.gap_ok); }
+                            let Some((f, q)) = filter_of(&topic, &s.filters) else {
+                                fail = Some(format!("input=[seed {} trace {:?}] detail=[{} received {} which matches none of its filters]", seed, trace, s.name, payload));
+                                break 'outer;
+                            };
+                            if !s.active[f] {
+                                // a message accepted before the UNSUBSCRIBE may still arrive; one accepted after it may not
+                            }
+                            if publish.qos as u8 != q {
+                                fail = Some(format!("input=[seed {} trace {:?}] detail=[{} received {} with QoS {}, granted QoS is {}]", seed, trace, s.name, payload, publish.qos as u8, q));
+                                break 'outer;
+                            }
+                            if s.acked.contains(&(topic.clone(), num)) {
+                                fail = Some(format!("input=[seed {} trace {:?}] detail=[{} was sent {} again although it had acknowledged it]", seed, trace, s.name, payload));
+                                break 'outer;
+                            }
+                            let t: &'static str = model_topics().into_iter().find(|x| *x == topic).unwrap();
+                            let due = *s.due.get(t).unwrap_or(&0);
+                            let redelivery = s.log.contains(&payload);
+                            if !redelivery {
+                                if num < due {
+                                    fail = Some(format!("input=[seed {} trace {:?}] detail=[{} received {} but number {} of that topic is due (too old)]", seed, trace, s.name, payload, due));
+                                    break 'outer;
+                                }
+                                if num > due && s.active[f] && !s.clean_gap_allowed(t) {
+                                    fail = Some(format!("input=[seed {} trace {:?}] detail=[{} received {} but number {} of that topic was never delivered (gap)]", seed, trace, s.name, payload, due));
+                                    break 'outer;
+                                }
+                                s.due.insert(t, num + 1);
+                                s.log.push(payload.clone());
+                            }
+                            if q == 1 {
+                                if publish.pkid == 0 || s.unacked.iter().any(|u| u.0 == publish.pkid) {
+                                    fail = Some(format!("input=[seed {} trace {:?}] detail=[{} received {} with packet id {} (zero or carried by another unacknowledged forward)]", seed, trace, s.name, payload, publish.pkid));
+                                    break 'outer;
+                                }
+                                s.unacked.push_back((publish.pkid, topic.clone(), num));
+                                if s.unacked.len() > 100 {
+                                    fail = Some(format!("input=[seed {} trace {:?}] detail=[{} has {} unacknowledged QoS 1 forwards]", seed, trace, s.name, s.unacked.len()));
+                                    break 'outer;
+                                }
+                            } else {
+                                s.acked.insert((topic.clone(), num));
+                            }
+                        }
+                    }
+                }
+                // acknowledge a prefix, in order
+                2 | 9 => {
+                    let s = &mut subs[who];
+                    let k = if finishing { s.unacked.len() } else { rng.below(s.unacked.len() as u64 + 1) as usize };
+                    let mut acks = vec![];
+                    for _ in 0..k {
+                        let (pkid, topic, num) = s.unacked.pop_front().unwrap();
+                        s.acked.insert((topic, num));
+                        acks.push(puback(pkid));
+                    }
+                    trace.push(format!("{} acks {}", s.name, k));
+                    if !acks.is_empty() {
+                        send(&mut r, &s.client, acks);
+                    }
+                }
+                // link failure and reconnect
+                10 => {
+                    let s = &mut subs[who];
+                    trace.push(format!("{} link fails, reconnects", s.name));
+                    r.events(s.client.id, Event::Disconnect);
+                    settle(&mut r);
+                    s.client = connect(&mut r, s.name, s.clean).unwrap();
+                    let first = s.client.obuf.lock().iter().any(|n| matches!(n, RNotification::DeviceAck(Ack::ConnAck(_, a, _)) if a.session_present));
+                    if first == s.clean {
+                        fail = Some(format!("input=[seed {} trace {:?}] detail=[{} (clean-session {}) was told session present = {}]", seed, trace, s.name, s.clean, first));
+                        break 'outer;
+                    }
+                    // unacknowledged forwards of the old connection are void; a persistent session gets them again
+                    s.unacked.clear();
+                    // QoS 0 forwards that sat unread in the dead link's buffer are gone for good (at most once)
+                    for (f, q) in s.filters.iter() {
+                        if *q == 0 {
+                            for t in model_topics() {
+                                if ref_matches(t, f) {
+                                    *s.gap_ok.entry(t).or_insert(0) += 1;
+                                }
+                            }
+                        }
+                    }
+                    if s.clean {
+                        for f in s.filters.iter() {
+                            s.active.insert(f.0, false);
+                        }
+                        for t in model_topics() {
+                            *s.gap_ok.entry(t).or_insert(0) += 1;
+                        }
+                    }
+                }
+                // unsubscribe / subscribe one filter again — the clean subscriber only: for a persistent one this runs into the
+                // recorded finding "resubscription rewound below its start" (C08), which has its own obligation
+                _ => {
+                    let s = &mut subs[1];
+                    let (f, q) = s.filters[rng.below(s.filters.len() as u64) as usize];
+                    if s.active[f] {
+                        trace.push(format!("{} unsubscribes {}", s.name, f));
+                        send(&mut r, &s.client, vec![unsubscribe(20, &[f])]);
+                        s.active.insert(f, false);
+                    } else {
+                        trace.push(format!("{} subscribes {}", s.name, f));
+                        send(&mut r, &s.client, vec![subscribe(21, &[(f, q)])]);
+                        s.active.insert(f, true);
+                    }
+                    // what is accepted while a filter is not subscribed is never due: the next delivery may jump ahead
+                    for t in model_topics() {
+                        if ref_matches(t, f) {
+                            *s.gap_ok.entry(t).or_insert(0) += 1;
+                        }
+                    }
+                }
+            }
+        }
+        // the end: everything read and acknowledged, the broker idle — nothing that is due may be missing
+        for s in subs.iter_mut() {
+            for t in model_topics() {
+                let Some((f, _)) = filter_of(t, &s.filters) else { continue };
+                if s.active[f] && s.gap_ok.get(t).copied().unwrap_or(0) == 0 {
+                    let want = published[t];
+                    let have = *s.due.get(t).unwrap_or(&0);
+                    if have != want {
+                        fail = Some(format!("input=[seed {} trace {:?}] detail=[at the end {} has received topic {} up to number {}, {} were accepted: the rest is still undelivered although everything is acknowledged and the broker is idle]", seed, trace, s.name, t, have, want));
+                        break 'outer;
+                    }
+                }
+            }
+        }
+    }
+    report(name, "C01,C08,C09", &format!("{} pseudo-random histories (seed base {}) of 60..120 steps: bursts up to 250, partial in-order acks, link failures with persistent / clean reconnect, unsubscribe / subscribe, then read+ack to quiescence", seeds, base), cases, fail);
+}
